@@ -118,6 +118,28 @@ def anchor_policies(chk, rng, tier):
                         kind = "wrong-document-or-level-accepted" if got == "OK" else "wrong-code"
                         chk.violation("verdict:%s:%s:doc=%s:level=%s" % (kind, p, "bit" if dk.startswith("bit") else dk, "huge" if len(lv) > 3 else lv),
                                       "%s policy with document=%s level=%s says rc=0x%x %s %s, expected %s %s" % (p, dk, lv, rc, got, f.get("code"), want, code), dict(line=line, log=[x[:400] for x in s.log[-6:]]))
+        # the convenience entry points KSI_verifyDataHash / KSI_verifySignature (general policy, anchors from the context: trust store + publications URL):
+        # through the context the signature was parsed under and through a second, identically configured one
+        import pubfile
+        cs = c04.Case(W, "KEY", dict(GOOD_ENV, rec="auth"), rng)
+        path = os.path.join(W.w.dir, "c02-pub-%d.bin" % os.getpid())
+        with open(path, "wb") as f:
+            f.write(cs.pub_file(raw=True))
+        s.cmd("BNEW")
+        o = s.cmd("PUBCFG %s %s %s %s" % (W.w.ca_pem, path, pubfile.E_OID, pubfile.EMAIL.encode().hex()))
+        if "rc=0x0" not in o[-1]:
+            raise vlib.CheckError("PUBCFG failed: %s" % o)
+        docs = [("equal", cs.doc), ("alg", ksi.imprint(5, b"other")), ("other", ksi.imprint(1, b"another document"))] + [("bit%d" % b, sigcase.flip(cs.doc, b)) for b in (0, 7, 100, 255)]
+        for which in ("same", "other"):
+            for dk, doc in docs:
+                line = s.cmd("VDH %s %s %s %s %s %s %s" % (cs.sig.hex(), doc.hex(), which, W.w.ca_pem, path, pubfile.E_OID, pubfile.EMAIL.encode().hex()))[-1]
+                f = netsim.kv(line); n += 1
+                r1, r2 = int(f["datahash"], 16), int(f["signature"], 16)
+                if int(f["parse"], 16) != 0 or r2 != 0 or (r1 == 0) != (dk == "equal"):
+                    kind = "wrong-document-accepted" if (r1 == 0 and dk != "equal") else "valid-rejected"
+                    chk.violation("verdict:%s:verifyDataHash:%s-context:doc=%s" % (kind, which, "bit" if dk.startswith("bit") else dk),
+                                  "KSI_verifyDataHash through %s context with document=%s returns 0x%x (KSI_verifySignature 0x%x): %s" % ("the signature's own" if which == "same" else "another, identically configured", dk, r1, r2, line), dict(line=line, log=[x[:400] for x in s.log[-6:]]))
+        s.cmd("BNEW")
     except netsim.Died as ex:
         chk.violation("crash:anchor-policies", "libksi crashed\n" + str(ex)[-2000:], dict(log=[x[:400] for x in s.log[-10:]])); s = None
     if s is not None:
